@@ -517,8 +517,12 @@ func ExtractTable(fn *ssa.Function, resIdx int) (*Table, error) {
 		case isBoolConst(v, false):
 			row.Outcome = "value:false"
 		default:
-			if c, _ := CallOf(Origin(v)); c != nil && !errCtorNames[CalleeName(c)] {
-				if fnc := c.Common().StaticCallee(); fnc == nil || !alwaysNonNil(fnc, 0, memo, 0) {
+			if c, ridx := CallOf(Origin(v)); c != nil && !errCtorNames[CalleeName(c)] {
+				if ridx < 0 {
+					ridx = 0
+				}
+				// (the result of the call that is returned here - not always its first one: `s, err := f()`)
+				if fnc := c.Common().StaticCallee(); fnc == nil || !alwaysNonNil(fnc, ridx, nonNilMemo{}, 0) {
 					if !KnownNonNil(v, b) {
 						row.Outcome = "call:" + CalleeName(c)
 						row.Call = c
